@@ -106,9 +106,13 @@ Init ==
 (* classification of events in the state they arrive in (no demands) *)
 
 ClassConfigured(a) == cfg.set /\ a.cls \in cfg.classes
+\* (a configuration text of a fuzzed kind may be accepted and mean something else than its nominal classes: the
+\*  calibration tells; such cases get labels of their own)
 ClsCat(a) == IF a.kind \in WithClass
              THEN (IF ~cfg.set THEN "cls-unconfigured-plugin"
-                   ELSE IF a.cls \in cfg.classes THEN "cls-configured" ELSE "cls-not-configured")
+                   ELSE IF a.cls \in cfg.classes
+                        THEN (IF a.cls \in servable THEN "cls-configured" ELSE "cls-configured-not-served")
+                        ELSE (IF a.cls \in servable THEN "cls-served-not-configured" ELSE "cls-not-configured"))
              ELSE a.kind
 \* the class of the container was configured when it was created and is not any more
 ClassRemoved(c) == info[c] # Nil /\ info[c].wascfg /\ ~ClassConfigured(info[c].a)
